@@ -743,13 +743,14 @@ func (s *ResettableKeystore) ResetCids(ctx context.Context, keysChan <-chan cid.
 	case <-s.done:
 		return ErrClosed
 	case s.resetOps <- resetOp{ctx: ctx, op: opStart, response: opsChan}:
-		select {
-		case err := <-opsChan:
-			if err != nil {
-				return err
-			}
-		case <-ctx.Done():
-			return ctx.Err()
+		// The worker has taken the request and always answers it. Wait for
+		// the answer even if ctx is cancelled meanwhile: opsChan is
+		// unbuffered, so abandoning the exchange would leave the worker
+		// blocked on its send forever (and a reset that did start would
+		// never be cleaned up). A cancelled ctx is noticed by the loop below,
+		// after the cleanup defer is in place.
+		if err := <-opsChan; err != nil {
+			return err
 		}
 	}
 
